@@ -17,6 +17,9 @@ import (
 func genomeLen(r *fw.Rng, thorough bool) int {
 	x := r.Float()
 	switch {
+	case x < 0.006:
+		// genome scale: coordinates beyond 2^14 and 2^15, flanks and records longer than any buffer
+		return r.Range(16500, 34000)
 	case x < 0.70:
 		return r.Range(1, 80)
 	case x < 0.95 || !thorough:
@@ -103,6 +106,10 @@ func runC01(c *fw.Ctx, idx int) fw.Result {
 	pr.AllowConflict = true
 	if r.Chance(0.3) {
 		pr.PIns, pr.PDel, pr.PSkip = 0.12, 0.12, 0.05
+	}
+	if L > 3000 {
+		pr.MaxQueries = 3
+		res.Count("genome_scale_cases", 1)
 	}
 	sf := gen.MakeSam(r, ref, pr)
 	sf.Text = noFinalNL(r, sf.Text)
